@@ -13,7 +13,7 @@ table = json.load(open(path))
 reach = [re.compile(rx) for rx, why in table["reach"]]
 def w(prog, key):
     fn = next(f for f in prog.allfuncs if f.name == key[1] and f.mod["tu"] == key[0])
-    res, _ = capcheck.analyse(fn, roles.get(fn.name, []), prog, roles)
+    res, _ = capcheck.analyse(fn, roles.get(fn.name, []), prog, roles, want_kinds=("W", "R", "L"))
     from sa.checks import capcommon
     und = [x for x in res if not (x["lo"] and x["hi"]) and x.get("const_index") and x["what"] in ("store", "load") and not x["role"].startswith(("local:", "global:"))]
     if und:
